@@ -8,8 +8,16 @@ package config
 //@   modifies nothing
 //@   ensures (ret == nil) <==> (v == 6 || v == 4)
 
+// C18: [address][%zone][:port] - the host part (as net.SplitHostPort sees it, with a port supplied
+// when none is written) is cut at its last '%': what precedes is the address, what follows the zone
+//@ pure func hostpart(s string) string = ite(shp_ok(s), shp_host(s), shp_host(strcat(s, ":0")))
 //@ func splitHostPort
 //@   modifies nothing
+//@   ensures[C18:accepted-iff-it-splits] (err == nil) <==> (shp_ok(hostport) || shp_ok(strcat(hostport, ":0")))
+//@   ensures[C18:zone-follows-the-last-percent] (err == nil && lastidx(hostpart(hostport), 37) >= 0) ==> \
+//@       (ip == hostpart(hostport)[:lastidx(hostpart(hostport), 37)] && zone == hostpart(hostport)[lastidx(hostpart(hostport), 37)+1:])
+//@   ensures[C18:no-percent-no-zone] (err == nil && lastidx(hostpart(hostport), 37) < 0) ==> (ip == hostpart(hostport) && zone == "")
+//@   ensures[C18:port-as-written] (err == nil && shp_ok(hostport)) ==> port == shp_port(hostport)
 
 // C18: the listed address parsed as [address][%zone][:port], with the protocol's wildcard address
 // and default port filled in; wrong family, unparseable address or port are errors
